@@ -6136,7 +6136,23 @@ write_function_instance(ostream &out, FunctionRemap *remap,
         while (unwrap->get_subtype() == CPPDeclaration::ST_typedef) {
           unwrap = unwrap->as_typedef_type()->_type;
         }
-        simple = unwrap->as_simple_type();
+        if (unwrap->as_enum_type() != nullptr) {
+          // The elements of an array of enums have the enum's underlying type.
+          unwrap = unwrap->as_enum_type()->get_underlying_type();
+          while (unwrap != nullptr &&
+                 unwrap->get_subtype() == CPPDeclaration::ST_typedef) {
+            unwrap = unwrap->as_typedef_type()->_type;
+          }
+        }
+        if (unwrap != nullptr) {
+          simple = unwrap->as_simple_type();
+        }
+      }
+
+      if (simple == nullptr) {
+        // Not something we know the element format of; assume plain int.
+        static CPPSimpleType int_type(CPPSimpleType::T_int);
+        simple = &int_type;
       }
 
       // Determine the format, so we can check the type of the buffer we get.
